@@ -18,7 +18,12 @@ RULE = ("structures: random consistent Atoms (1–8 atoms quick / –12 thorough
         "empty; negative charges/coordinates/groups; numbers on the 10⁻⁶ grid, with more digits, exact printf ties (k/128) "
         "and tiny negatives; masses from the table or unknown), each in BOTH atom styles; plus a rejection stream (cells "
         "that are not lower-triangular) and a malformed-file stream for the reader's state machine. "
-        "Non-trivial = distinct (structure, style) with at least one term or one coefficient/label comment.")
+        "Histories: for half of the (structure, style) pairs the SAME object is written 3–5 times (save_lmpdat, Atoms.save to a "
+        "file object or a path) with its labels / masses / coefficient tables / charges / one atom type / integer-typed arrays "
+        "re-assigned or edited in place between the writes, on the object itself, on its copy(), on a re-read of the last "
+        "file, on a subset a[idx] and on Atoms.from_ase_atoms of its ASE image; every write is judged by the same independent "
+        "reader against the object's tables at that moment, and an edited copy must leave the original unchanged. "
+        "Non-trivial = distinct (structure, style) with at least one term or one coefficient/label comment; every history.")
 
 PREC = Fraction(1, 2000000) + Fraction(1, 10 ** 9)       # half a unit of the printed precision (+ float slack)
 STYLES = ["full", "atomic"]
@@ -490,6 +495,188 @@ def oracle_case(aj, style, tmpdir=None):
     return None, det
 
 
+# ------------------------------------------------------------------------------------------ histories on one object
+
+ATTR = {"pair": "pair_coeffs", "bond": "bond_type_coeffs", "angle": "angle_type_coeffs",
+        "dihedral": "dihedral_type_coeffs", "improper": "improper_type_coeffs"}
+
+
+def rand_history(rng, aj):
+    """2–4 further writes of ONE object (or of its copy() / a re-read of it / a subset of it / its ASE round trip), with
+    the type tables edited between the writes the way rough_uff and the CLI do (attribute assignment), in place, or not
+    at all.  Every step is data, so a history can be replayed."""
+    nt = len(aj["types"]["label"])
+    n = len(aj["atoms"])
+    M = gen.masses()
+    steps = []
+    for k in range(rng.randint(2, 4)):
+        e = {}
+        for what in rng.sample(["label", "label", "mass", "coeffs", "pair", "charge", "retype", "ints", "none"], rng.randint(1, 3)):
+            if what == "label":
+                e["label"] = ["%s%s%d" % (rng.choice(["L", "n_", "Q "]), chr(97 + k), i) for i in range(nt)]
+                e["label_how"] = rng.choice(["assign", "assign", "inplace", "one"])
+            elif what == "mass":
+                e["mass"] = [core.q(M[x]) for x in rng.sample(sorted(M), nt)]
+            elif what == "coeffs":
+                kind = rng.choice(gen.KINDS)
+                e.setdefault("coeffs", {})[kind] = ["%s%d_%d %s" % (kind[0], k, i, rand_coeff(rng)) for i in range(len(aj["types"][kind]))]
+            elif what == "pair":
+                e.setdefault("coeffs", {})["pair"] = ["p%d_%d %s" % (k, i, rand_coeff(rng)) for i in range(rng.choice([0, nt]))]
+            elif what == "charge":
+                e["charge"] = [rand_number(rng, -2, 2) for _ in range(n)]
+            elif what == "retype":
+                e["retype"] = [rng.randrange(n), rng.randrange(nt)]
+            elif what == "ints":                     # integer-typed arrays
+                e["ints"] = {"pos": [[rng.randint(-3, 14) for _ in range(3)] for _ in range(n)],
+                             "mass": [rng.randint(1, 200) for _ in range(nt)]}
+        steps.append({"target": rng.choice(["self", "self", "self", "copy", "copy", "reload", "subset", "ase"]),
+                      "via": rng.choice(["direct", "direct", "file", "path"]),
+                      "idx": rng.sample(range(n), rng.randint(1, n)), "edit": e})
+    return steps
+
+
+def apply_edit(o, e):
+    import numpy as np
+    if "label" in e and len(e["label"]) == len(o.atom_type_labels):
+        how = e.get("label_how", "assign")
+        if how == "assign":
+            o.atom_type_labels = list(e["label"])
+        elif how == "inplace" and isinstance(o.atom_type_labels, list) and o.atom_type_labels is not o.atom_type_elements:
+            o.atom_type_labels[:] = e["label"]
+        elif how == "one" and isinstance(o.atom_type_labels, list) and o.atom_type_labels is not o.atom_type_elements:
+            o.atom_type_labels[-1] = e["label"][-1]
+        else:
+            o.atom_type_labels = list(e["label"])
+    if "mass" in e and len(e["mass"]) == len(o.atom_type_masses):
+        o.atom_type_masses = [float(core.unq(m)) for m in e["mass"]]
+    for k, tbl in e.get("coeffs", {}).items():
+        if k == "pair" or len(tbl) == len(getattr(o, ATTR[k])):
+            setattr(o, ATTR[k], list(tbl))
+    if "charge" in e and len(e["charge"]) == len(o.charges):
+        o.charges = np.array([float(core.unq(c)) for c in e["charge"]])
+    if "retype" in e and e["retype"][0] < len(o.atom_types) and e["retype"][1] < len(o.atom_type_labels):
+        o.atom_types[e["retype"][0]] = e["retype"][1]
+    if "ints" in e and len(e["ints"]["pos"]) == len(o.positions) and len(e["ints"]["mass"]) == len(o.atom_type_masses):
+        o.positions = np.array(e["ints"]["pos"], dtype=int)
+        o.atom_type_masses = np.array(e["ints"]["mass"], dtype=int)
+        if o.cell is not None:
+            o.cell = np.array(np.round(o.cell), dtype=int)
+
+
+def write_via(o, style, via, tmpdir):
+    if via == "direct" or tmpdir is None:
+        return save_obj(o, style)
+    with core.quiet():
+        if via == "file":
+            s = io.StringIO()
+            o.save(s, filetype="lmpdat", atom_format=style)
+            return s.getvalue()
+        p = os.path.join(tmpdir, "h.lmpdat")
+        o.save(p, atom_format=style)
+        return open(p).read()
+
+
+def judge_write(o, style, via, tmpdir, who):
+    """one write of the object `o`, judged by the round-trip oracle against o's CURRENT tables"""
+    from mofun import Atoms
+    for acc in ("elements", "symbols", "num_atom_types", "num_bond_types", "num_improper_types"):
+        getattr(o, acc)                              # accessors read before the write must not matter
+    if len(o.atom_type_labels):
+        o.label_atoms(0)
+    cur = core.canon_atoms(o)
+    text = write_via(o, style, via, tmpdir)
+    d = core.same(cur, core.canon_atoms(o))
+    if d:
+        return "%s: writing changed the object: %s" % (who, d), cur, text
+    bad = oracle_written(cur, style, text)
+    if bad:
+        return "%s: %s" % (who, bad), cur, text
+    with core.quiet():
+        if via == "path" and tmpdir is not None:
+            back = Atoms.load(os.path.join(tmpdir, "h.lmpdat"), atom_format=style)
+        elif via == "file":
+            back = Atoms.load(io.StringIO(text), filetype="lmpdat", atom_format=style)
+        else:
+            back = Atoms.load_lmpdat(io.StringIO(text), atom_format=style)
+    bad = oracle_loaded(cur, style, core.canon_atoms(back))
+    if bad:
+        return "%s (read back): %s" % (who, bad), cur, text
+    return None, cur, text
+
+
+def ase_expectation(aj):
+    """what Atoms.from_ase_atoms of the structure's ASE image must be, stated from the ASE data alone"""
+    els = [aj["types"]["elem"][r["ty"]] for r in aj["atoms"]]
+    uniq = list(dict.fromkeys(els))
+    M = gen.masses()
+    return {"cell": aj["cell"], "atoms": [{"ty": uniq.index(e), "pos": r["pos"], "q": "0", "g": 0, "x": []}
+                                           for e, r in zip(els, aj["atoms"])],
+            "terms": {k: [] for k in gen.KINDS},
+            "types": {"elem": uniq, "label": uniq, "mass": [core.q(M[e]) for e in uniq], "pair": [],
+                      "bond": [], "angle": [], "dihedral": [], "improper": []},
+            "xlabels": {"atom": [], "bond": [], "angle": [], "dihedral": [], "improper": []}}
+
+
+def oracle_history(aj, style, steps, tmpdir=None):
+    """write the same object again and again (and objects derived from it), editing its tables in between; every file
+    must state the tables the object has AT THAT MOMENT.  Returns (None | what, writes) with writes = [(dump, text)]."""
+    from mofun import Atoms
+    writes = []
+    try:
+        a = core.atoms_from_json(aj)
+        bad, cur, text = judge_write(a, style, "direct", tmpdir, "write 1")
+        writes.append((cur, text))
+        if bad:
+            return bad, writes
+        for i, st in enumerate(steps):
+            who = "write %d (%s, %s)" % (i + 2, st["target"], ",".join(sorted(st["edit"])) or "no edit")
+            tgt = st["target"]
+            if tgt == "self":
+                o = a
+            elif tgt == "copy":
+                o = a.copy()
+            elif tgt == "reload":
+                with core.quiet():
+                    o = Atoms.load_lmpdat(io.StringIO(writes[-1][1]), atom_format=style)
+            elif tgt == "subset":
+                with core.quiet():
+                    o = a[[k for k in st["idx"] if k < len(a.atom_types)]]
+            else:
+                M = gen.masses()
+                els = [aj["types"]["elem"][r["ty"]] for r in aj["atoms"]]
+                if not all(e in M for e in els):
+                    continue
+                import ase
+                try:
+                    img = ase.Atoms(els, positions=[[float(core.unq(v)) for v in r["pos"]] for r in aj["atoms"]],
+                                    **({} if aj["cell"] is None else {"cell": [[float(core.unq(v)) for v in row] for row in aj["cell"]], "pbc": True}))
+                except Exception:  # noqa  (a symbol ASE does not know: ASE's vocabulary is not this property)
+                    continue
+                with core.quiet():
+                    o = Atoms.from_ase_atoms(img)
+                d = core.same(ase_expectation(aj), core.canon_atoms(o))
+                if d:
+                    return "%s: from_ase_atoms does not give the ASE object's content: %s" % (who, d), writes
+            before = core.canon_atoms(a)
+            if tgt != "ase":
+                apply_edit(o, st["edit"])
+            bad, cur, text = judge_write(o, style, st["via"], tmpdir, who)
+            writes.append((cur, text))
+            if bad:
+                return bad, writes
+            if o is not a:                           # an edited copy / re-read must not leak into the original
+                d = core.same(before, core.canon_atoms(a))   # (a[idx] shares its type tables with the original by design)
+                if d and tgt != "subset":
+                    return "%s: editing the derived object changed the original: %s" % (who, d), writes
+                bad, cur, text = judge_write(a, style, "direct", tmpdir, who + " then the original again")
+                writes.append((cur, text))
+                if bad:
+                    return bad, writes
+    except Exception as e:  # noqa
+        return "a write in the history raised %r" % (e,), writes
+    return None, writes
+
+
 # ------------------------------------------------------------------------------------------ malformed files
 
 def malform(rng, text):
@@ -648,6 +835,21 @@ def run(ctx, oracle_only=False):
                 bad, det = oracle_case(aj, style, tmpdir if (s % 10 == 0 or oracle_only) else None)
                 if bad:
                     ctx.fail(bad, inp, observed={k: v for k, v in det.items() if k in ("save", "load")})
+                # --- histories: the same object written again after its tables were edited
+                if not rejected and "ok" in det["save"] and (s % 2 == (0 if style == "full" else 1)):
+                    steps = rand_history(rng, aj)
+                    hin = {"op": "lmp_history", "a": aj, "style": style, "steps": steps}
+                    ctx.case(hin, nontrivial=True)
+                    for st in steps:
+                        ctx.count("history:" + st["target"])
+                    hbad, writes = oracle_history(aj, style, steps, tmpdir)
+                    if hbad:
+                        ctx.fail(hbad, hin, observed={"last_text": writes[-1][1] if writes else None})
+                    elif not oracle_only:
+                        for cur, text in writes[1:]:
+                            ops.append({"op": "lmp_save", "a": cur, "style": style, "history": True})
+                            impls.append({"lines": canon_lines(tokenize(text))})
+                            tols.append("lines")
                 if oracle_only:
                     continue
                 # --- tie: writer
@@ -712,7 +914,10 @@ def replay(ctx, rec):
     inp = rec["input"]
     tmpdir = tempfile.mkdtemp(prefix="c13_")
     try:
-        bad, _ = oracle_case(inp["a"], inp["style"], tmpdir)
+        if inp.get("op") == "lmp_history":
+            bad, _ = oracle_history(inp["a"], inp["style"], inp["steps"], tmpdir)
+        else:
+            bad, _ = oracle_case(inp["a"], inp["style"], tmpdir)
     finally:
         shutil.rmtree(tmpdir, ignore_errors=True)
     return bad is None
